@@ -122,11 +122,11 @@ def ActFrom (cfg : Cfg) (s : Sys) (t : Thread) (pc' : Pc) : Act → Prop
   | .finishStop n cid => t.pc = .spLoop n cid ∧ srcsOf s cid = []
   | .getInformer g _ =>
       (∃ n cid wid reg, t.pc = .spGI n cid wid reg ∧ g = wid.gvk) ∨
-      (∃ cid a wid rest, t.pc = .swGI cid a wid rest ∧ g = wid.gvk) ∨
+      (∃ cid a st wid rest, t.pc = .swGI cid a st wid rest ∧ g = wid.gvk) ∨
       (∃ cid wid reg rest k, t.pc = .xwGI cid wid reg rest k ∧ g = wid.gvk)
-  | .addReg cid wid h' => ∃ a rest, t.pc = .swAH cid a wid rest h' ∧ aget wid.gvk s.live = some h' ∧
-      pc' = swPc cid (if cfg.fixD2 then wid.gvk :: a else a)
-        (swNext (aset wid s.nextReg (srcsOf s cid)) (if cfg.fixD2 then wid.gvk :: a else a) rest)
+  | .addReg cid wid h' => ∃ a st rest, t.pc = .swAH cid a st wid rest h' ∧ aget wid.gvk s.live = some h' ∧
+      pc' = swPc cid a (if cfg.fixD2 then wid :: st else st)
+        (swNext (aset wid s.nextReg (srcsOf s cid)) a (if cfg.fixD2 then wid :: st else st) rest)
   | .delReg cid wid reg =>
       (∃ n h', t.pc = .spRH n cid wid reg h' ∧ pc' = .spLoop n cid) ∨
       (∃ rest k h', t.pc = .xwRH cid wid reg rest k h' ∧ pc' = xwPc cid (k + 1) (xwNext (adel wid (srcsOf s cid)) rest))
@@ -147,7 +147,7 @@ theorem next_act_cases {cfg : Cfg} {s : Sys} {i : Nat} {t : Thread} {ch : Choice
        | exact ⟨rfl, rfl⟩
        | exact ⟨rfl, by assumption⟩
        | exact Or.inl ⟨_, _, _, _, rfl, rfl⟩
-       | exact Or.inr (Or.inl ⟨_, _, _, _, rfl, rfl⟩)
+       | exact Or.inr (Or.inl ⟨_, _, _, _, _, rfl, rfl⟩)
        | exact Or.inr (Or.inr ⟨_, _, _, _, _, rfl, rfl⟩)
        | exact Or.inl ⟨_, _, rfl, rfl⟩
        | exact Or.inr ⟨_, _, _, rfl, rfl⟩
@@ -155,7 +155,7 @@ theorem next_act_cases {cfg : Cfg} {s : Sys} {i : Nat} {t : Thread} {ch : Choice
        | skip)
   all_goals
     rename_i hh hf
-    refine ⟨_, _, rfl, ?_, ?_⟩
+    refine ⟨_, _, _, rfl, ?_, ?_⟩
     · simp only [Bool.or_eq_true, bne_iff_ne, ne_eq, not_or, Decidable.not_not] at hh
       exact hh.2
     · simp [hf]
